@@ -443,7 +443,7 @@ def _summarise_nonempty(ctx, fr, path, src, body, lo, hi, peel):
             entry = _with_known_contents(ctx, path, entry)
             g = make_generic(ctx, pre, f"{field}", entry)
             hgens[(field, oid.get_id())] = (g, oid, field)
-            pre.heap[field] = simp(z3.Store(ctx.heap_arr(pre, field), oid, g.val.t))
+            ctx.write_field(pre, Val(V.VObj(z3.IntVal(0), oid)), field, g.val)
         ghost_gens = {}
         for gname in getattr(body, "ghosts", []):
             if gname in path.ghost:
@@ -501,16 +501,24 @@ def _summarise_nonempty(ctx, fr, path, src, body, lo, hi, peel):
     else:
         raise Unsupported(f"loop at {where}: carried state did not stabilise")
 
-    all_generic_consts = [g.inner for g in gens.values()] + [g.inner for g, _, _ in hgens.values()] + \
-                         [g.inner for g in ghost_gens.values()]
-    all_generic_consts = [c for c in all_generic_consts if c is not None]
-    # generic 'any' values are V consts; seq/str/int are inner consts; sets: setof(sid) app -> track sid const
-    state_consts = []
-    for g in list(gens.values()) + [x[0] for x in hgens.values()] + list(ghost_gens.values()):
-        if g.kind == "set":
-            state_consts.append(g.val.t.arg(0))     # sid const
-        else:
-            state_consts.append(g.inner)
+    # ------------------------------------------------------------------ per-location analysis
+    class Loc:
+        def __init__(self, key, g, post_of):
+            self.key, self.g, self.post_of = key, g, post_of
+            # the constant(s) that stand for this location's accumulated state in terms
+            self.state_const = g.val.t.arg(0) if g.kind == "set" else g.inner
+            self.mk = None
+
+    locs = []
+    for n, g in gens.items():
+        locs.append(Loc(("env", n), g, lambda p, n=n: p.env[n]))
+    for key, (g, oid, field) in hgens.items():
+        def post_of(p, field=field, oid=oid, g=g):
+            return Val(ctx._select(p, field, oid), g.val.ann, own=g.val.own)
+        locs.append(Loc(("heap", field, oid), g, post_of))
+    for gname, g in ghost_gens.items():
+        locs.append(Loc(("ghost", gname), g, lambda p, gname=gname: p.ghost[gname]))
+    state_consts = [L.state_const for L in locs]
 
     cont_outs = [(p, o) for p, o in outs if o.kind in ("fall", "continue")]
     exit_outs = [(p, o) for p, o in outs if o.kind in ("break", "ret", "raise")]
@@ -522,61 +530,81 @@ def _summarise_nonempty(ctx, fr, path, src, body, lo, hi, peel):
     def facts_of(p):
         return p.facts[base_facts:]
 
-    for p, o in outs:
-        c = cond_of(p)
-        if mentions(c, state_consts):
-            raise Unsupported(f"loop at {where}: a branch inside the loop depends on accumulated state (needs an invariant)")
-
     K0 = z3.Int("K!0")
-    body_facts = []
-    for p, o in outs:
-        for f in facts_of(p):
-            if not mentions(f, state_consts):
-                body_facts.append(z3.Implies(cond_of(p), f))
+    # closed forms of already resolved locations at iteration K (value before the K-th iteration)
+    closed_subs = []       # (generic term, closed term at K)
+
+    def close(t):
+        return simp(z3.substitute(t, *closed_subs)) if closed_subs else t
 
     def norm(t):
-        return simp(z3.substitute(t, (K, K0)))
+        return simp(z3.substitute(close(t), (K, K0)))
 
-    exit_cond = simp(z3.Or([cond_of(p) for p, o in exit_outs])) if exit_outs else z3.BoolVal(False)
+    def unresolved_consts():
+        return [L.state_const for L in locs if L.mk is None]
 
-    # ---- summaries per location
-    def summarise_location(g: Generic, post_of):
-        """post_of(p) -> Val of the location on outcome path p. Returns f(lo_t, hi_t) -> Val of the location
-        after iterating [lo_t, hi_t) from the entry value."""
+    def set_contents(p, v):
+        return simp(ctx.set_arr(p, v))
+
+    def summarise_location(L):
+        """Try to give location L a closed form. Returns False if it still depends on unresolved locations."""
+        g = L.g
         entry = g.entry
-        posts = [(cond_of(p), post_of(p)) for p, o in cont_outs]
-        if all(z3.eq(simp(v.t), simp(g.val.t)) for _, v in posts):
-            return lambda a, b: entry, None
+        others = [c for c in unresolved_consts() if c is not L.state_const]
+        posts = []
+        for p, o in cont_outs:
+            c = close(cond_of(p))
+            if mentions(c, others) or mentions(c, [L.state_const]):
+                # a branch of the body depends on state that has no closed form (yet)
+                if mentions(c, [L.state_const]):
+                    raise Unsupported(f"loop at {where}: a branch depends on the accumulated value of "
+                                      f"'{g.name}' itself (needs an invariant)")
+                return False
+            posts.append((c, p, L.post_of(p)))
+        bfacts = []
+        for p, o in outs:
+            for f in facts_of(p):
+                cf = close(f)
+                if not mentions(cf, unresolved_consts()):
+                    bfacts.append(norm(z3.Implies(cond_of(p), f)))
+        if all(z3.eq(simp(v.t), simp(g.val.t)) for _, _, v in posts):
+            L.mk = lambda a, b, entry=entry: entry
+            L.closed_inner = None
+            return True
         if g.kind in ("seq", "str"):
             pieces = []
-            for c, v in posts:
+            for c, p, v in posts:
                 t = simp(v.t)
                 inner_t = t.arg(0) if smt.ctor(t) in ("VList", "VStr") else None
                 if inner_t is None:
                     raise Unsupported(f"loop at {where}: '{g.name}' changes kind inside the loop")
                 pc = _strip_prefix(inner_t, g.inner, g.kind)
-                if pc is None or mentions(pc, state_consts):
-                    raise Unsupported(f"loop at {where}: update of '{g.name}' is not an append of a state-independent piece")
-                pieces.append((c, pc))
+                if pc is None:
+                    raise Unsupported(f"loop at {where}: update of '{g.name}' is not an append")
+                pc = close(pc)
+                if mentions(pc, [L.state_const]):
+                    raise Unsupported(f"loop at {where}: appended piece of '{g.name}' depends on '{g.name}' itself")
+                if mentions(pc, others):
+                    return False
+                pieces.append((c, pc, v))
             empty = smt.EMPTY_SEQ if g.kind == "seq" else z3.StringVal("")
             piece = empty
-            for c, pc in reversed(pieces):
+            for c, pc, _ in reversed(pieces):
                 piece = z3.If(c, pc, piece)
             piece = norm(piece)
-            nm = ("CM_" if g.kind == "seq" else "CS_") + _key(piece, *[norm(f) for f in body_facts][:0])
+            nm = ("CM_" if g.kind == "seq" else "CS_") + _key(piece)
             sort = smt.SeqV if g.kind == "seq" else smt.StrS
             fn = ctx.func(nm, smt.IntS, smt.IntS, sort)
             unit_len = None
             if g.kind == "seq":
-                lens = {_static_len(pc) for _, pc in pieces}
-                if len(lens) == 1 and None not in lens and z3.is_true(simp(z3.Or([c for c, _ in pieces]))) and not exit_outs:
+                lens = {_static_len(pc) for _, pc, _ in pieces}
+                if len(lens) == 1 and None not in lens and z3.is_true(simp(z3.Or([c for c, _, _ in pieces]))) and not exit_outs:
                     unit_len = lens.pop()
-            ctx.folds.setdefault(nm, FoldInfo(nm, g.kind, fn, K0, piece, [norm(f) for f in body_facts], unit_len))
-            deep = entry.deep and all(v.own != "borrow" and (v.own != "fresh" or v.deep) for _, v in posts)
-
+            ctx.folds.setdefault(nm, FoldInfo(nm, g.kind, fn, K0, piece, bfacts, unit_len))
+            deep = entry.deep and all(v.own != "borrow" and (v.own != "fresh" or v.deep) for _, _, v in pieces)
             rann = entry.ann
             if g.kind == "seq" and ann_elem(rann) is None:
-                for _, v in posts:
+                for _, _, v in pieces:
                     if ann_elem(v.ann) is not None:
                         rann = v.ann
                         break
@@ -585,15 +613,23 @@ def _summarise_nonempty(ctx, fr, path, src, body, lo, hi, peel):
                 if kind == "seq":
                     return Val(V.VList(simp(z3.Concat(ctx.as_seq(path, entry), fn(a, b)))), rann, own=entry.own, deep=deep, src=entry.src)
                 return Val(V.VStr(simp(z3.Concat(ctx.as_str(path, entry), fn(a, b)))), ("str",))
-            return mk, nm
+            L.mk = mk
+            inner_at_K = ctx.as_seq(path, mk(lo, K)) if g.kind == "seq" else ctx.as_str(path, mk(lo, K))
+            closed_subs.append((g.inner, inner_at_K))
+            return True
         if g.kind == "set":
             garr = g.inner
             pieces = []
-            for c, v in posts:
-                arr = simp(ctx.set_arr(_path_of(cont_outs, v), v))
+            for c, p, v in posts:
+                arr = set_contents(p, v)
                 pc = _strip_set(arr, garr)
-                if pc is None or mentions(pc, state_consts):
-                    raise Unsupported(f"loop at {where}: update of set '{g.name}' is not a union with a state-independent piece")
+                if pc is None:
+                    raise Unsupported(f"loop at {where}: update of set '{g.name}' is not a union")
+                pc = close(pc)
+                if mentions(pc, [L.state_const]):
+                    raise Unsupported(f"loop at {where}: piece added to set '{g.name}' depends on the set itself")
+                if mentions(pc, others):
+                    return False
                 pieces.append((c, pc))
             piece = smt.EMPTY_SET
             for c, pc in reversed(pieces):
@@ -601,23 +637,29 @@ def _summarise_nonempty(ctx, fr, path, src, body, lo, hi, peel):
             piece = norm(piece)
             nm = "CU_" + _key(piece)
             fn = ctx.func(nm, smt.IntS, smt.IntS, smt.SetA)
-            ctx.folds.setdefault(nm, FoldInfo(nm, "set", fn, K0, piece, [norm(f) for f in body_facts]))
+            ctx.folds.setdefault(nm, FoldInfo(nm, "set", fn, K0, piece, bfacts))
+            entry_arr = ctx.set_arr(path, entry)
 
-            def mk(a, b, fn=fn, entry=entry):
-                nv = ctx.mk_set(path, z3.SetUnion(ctx.set_arr(path, entry), fn(a, b)), entry.ann, own=entry.own)
+            def mk(a, b, fn=fn, entry=entry, entry_arr=entry_arr):
+                nv = ctx.mk_set(path, z3.SetUnion(entry_arr, fn(a, b)), entry.ann, own=entry.own,
+                                frozen=False)
                 nv.src = entry.src
                 nv.deep = entry.deep
                 return nv
-            return mk, nm
+            L.mk = mk
+            closed_subs.append((garr, simp(z3.SetUnion(entry_arr, fn(lo, K)))))
+            return True
         if g.kind == "int":
             deltas = []
-            for c, v in posts:
+            for c, p, v in posts:
                 t = simp(v.t)
                 if smt.ctor(t) != "VInt":
                     raise Unsupported(f"loop at {where}: '{g.name}' changes kind")
-                d = simp(t.arg(0) - g.inner)
-                if mentions(d, state_consts):
-                    raise Unsupported(f"loop at {where}: counter '{g.name}' update depends on state")
+                d = close(simp(t.arg(0) - g.inner))
+                if mentions(d, [L.state_const]):
+                    raise Unsupported(f"loop at {where}: counter '{g.name}' update is not an increment")
+                if mentions(d, others):
+                    return False
                 deltas.append((c, d))
             piece = z3.IntVal(0)
             for c, d in reversed(deltas):
@@ -625,70 +667,78 @@ def _summarise_nonempty(ctx, fr, path, src, body, lo, hi, peel):
             piece = norm(piece)
             nm = "SUM_" + _key(piece)
             fn = ctx.func(nm, smt.IntS, smt.IntS, smt.IntS)
-            ctx.folds.setdefault(nm, FoldInfo(nm, "int", fn, K0, piece, [norm(f) for f in body_facts]))
-            return (lambda a, b, fn=fn, entry=entry: Val(V.VInt(simp(ctx.as_int(path, entry) + fn(a, b))), ("int",))), nm
+            ctx.folds.setdefault(nm, FoldInfo(nm, "int", fn, K0, piece, bfacts))
+            e_int = ctx.as_int(path, entry)
+            L.mk = lambda a, b, fn=fn, e_int=e_int: Val(V.VInt(simp(e_int + fn(a, b))), ("int",))
+            closed_subs.append((g.inner, simp(e_int + fn(lo, K))))
+            return True
         # 'any': last-write pattern  acc' = f(k) if cond(k) else acc
         writes = []
-        for c, v in posts:
-            t = simp(v.t)
-            if z3.eq(t, g.inner):
+        for c, p, v in posts:
+            t = close(simp(v.t))
+            if z3.eq(simp(v.t), g.inner):
                 continue
-            if mentions(t, state_consts):
-                raise Unsupported(f"loop at {where}: update of '{g.name}' depends on accumulated state (needs an invariant)")
-            writes.append((c, v))
-        wcond = norm(z3.Or([c for c, _ in writes]))
+            if mentions(t, [L.state_const]):
+                raise Unsupported(f"loop at {where}: update of '{g.name}' depends on its own previous value (needs an invariant)")
+            if mentions(t, others):
+                return False
+            writes.append((c, t, v))
+        wcond = norm(z3.Or([c for c, _, _ in writes]))
         wval = None
         ann = None
-        for c, v in reversed(writes):
-            wval = v.t if wval is None else z3.If(c, v.t, wval)
-            ann = v.ann if ann is None or ann == v.ann else None
+        first = True
+        for c, t, v in reversed(writes):
+            wval = t if wval is None else z3.If(c, t, wval)
+            ann = v.ann if (first or ann == v.ann) else None
+            first = False
         wval = norm(wval)
         nm = "LAST_" + _key(wcond)
         fn = ctx.func(nm, smt.IntS, smt.IntS, smt.IntS)     # greatest index in [a,b) with wcond, or a-1
-        ctx.folds.setdefault(nm, FoldInfo(nm, "last", fn, K0, wcond, [norm(f) for f in body_facts]))
+        ctx.folds.setdefault(nm, FoldInfo(nm, "last", fn, K0, wcond, bfacts))
 
         def mk(a, b, fn=fn, wval=wval, entry=entry, ann=ann):
             idx = fn(a, b)
             t = simp(z3.If(idx >= a, z3.substitute(wval, (K0, idx)), entry.t))
             ea = ann if (ann is not None and entry.ann == ann) else None
             return Val(t, ea, own="borrow" if (ann_mutable(ea)) else "imm")
-        return mk, nm
+        L.mk = mk
+        closed_subs.append((g.inner, mk(lo, K).t))
+        return True
 
-    def _path_of(couts, v):
-        for p, o in couts:
-            for val in list(p.env.values()) + list(p.ghost.values()):
-                if val is v:
-                    return p
-        return couts[0][0]
-
-    loc_summaries = []      # (setter(path, Val), mk)
-    for n, g in gens.items():
-        mk, nm = summarise_location(g, lambda p, n=n: p.env[n])
-        loc_summaries.append((("env", n), mk, g))
-    for key, (g, oid, field) in hgens.items():
-        def post_of(p, field=field, oid=oid):
-            t = ctx._select(p, field, oid)
-            return _with_known_contents(ctx, p, Val(t, g.val.ann, own=g.val.own))
-        mk, nm = summarise_location(g, post_of)
-        loc_summaries.append((("heap", field, oid), mk, g))
-    for gname, g in ghost_gens.items():
-        mk, nm = summarise_location(g, lambda p, gname=gname: p.ghost[gname])
-        loc_summaries.append((("ghost", gname), mk, g))
+    # triangular resolution: a location may depend on locations that already have a closed form
+    progress = True
+    while progress and any(L.mk is None for L in locs):
+        progress = False
+        for L in locs:
+            if L.mk is None and summarise_location(L):
+                progress = True
+    if any(L.mk is None for L in locs):
+        names_ = ", ".join(str(L.key[1]) for L in locs if L.mk is None)
+        raise Unsupported(f"loop at {where}: mutually dependent accumulated state ({names_}) needs an invariant")
+    for p, o in exit_outs:
+        if mentions(close(cond_of(p)), state_consts):
+            raise Unsupported(f"loop at {where}: exit condition depends on accumulated state (needs an invariant)")
+    exit_cond = simp(z3.Or([close(cond_of(p)) for p, o in exit_outs])) if exit_outs else z3.BoolVal(False)
+    body_facts = []
+    for p, o in outs:
+        for f in facts_of(p):
+            cf = close(z3.Implies(cond_of(p), f))
+            if not mentions(cf, state_consts):
+                body_facts.append(cf)
 
     def apply_state(q, a, b):
         """Set all carried locations of path q to their value after iterating [a, b)."""
-        for loc, mk, g in loc_summaries:
-            v = mk(a, b)
+        for L in locs:
+            v = L.mk(a, b)
+            loc = L.key
             if loc[0] == "env":
                 q.env[loc[1]] = v
             elif loc[0] == "heap":
-                q.heap[loc[1]] = simp(z3.Store(ctx.heap_arr(q, loc[1]), loc[2], v.t))
+                ctx.write_field(q, Val(V.VObj(z3.IntVal(0), loc[2])), loc[1], v)
             else:
                 q.ghost[loc[1]] = v
 
     results = []
-    # names bound only inside the loop are unbound afterwards unless they existed before (kept at entry value
-    # if constant, otherwise removed so that a later read is reported as outside the subset)
     if not exit_outs:
         q = path.fork()
         apply_state(q, lo, hi)
@@ -696,10 +746,11 @@ def _summarise_nonempty(ctx, fr, path, src, body, lo, hi, peel):
         results.append((q, Outcome("fall")))
         return results
     # ---- loops with exits: FIRST index whose exit condition holds
-    ec = norm(exit_cond)
+    ec = simp(z3.substitute(exit_cond, (K, K0)))
     nm = "FIRST_" + _key(ec)
     fn = ctx.func(nm, smt.IntS, smt.IntS, smt.IntS)       # least index in [a,b) with exit cond, or b
-    ctx.folds.setdefault(nm, FoldInfo(nm, "first", fn, K0, ec, [norm(f) for f in body_facts]))
+    nbf = [simp(z3.substitute(f, (K, K0))) for f in body_facts]
+    ctx.folds.setdefault(nm, FoldInfo(nm, "first", fn, K0, ec, nbf))
     F = fn(lo, hi)
     q = path.fork()
     q.assume(z3.And(lo <= F, F <= hi), "FIRST fold range")
@@ -708,41 +759,30 @@ def _summarise_nonempty(ctx, fr, path, src, body, lo, hi, peel):
             apply_state(r, lo, hi)
             results.append((r, Outcome("fall")))
             continue
-        # exit at index F: state after [lo, F), then the exiting iteration
         r.assume(z3.substitute(ec, (K0, F)), "FIRST fold: exit condition holds at the first exit index")
-        for f in body_facts:
-            r.assume(z3.substitute(norm(f), (K0, F)))
+        for f in nbf:
+            r.assume(z3.substitute(f, (K0, F)))
         for p, o in exit_outs:
-            c = simp(z3.substitute(norm(cond_of(p)), (K0, F)))
+            c = simp(z3.substitute(close(cond_of(p)), (K, F)))
             if not ctx.feasible(r, c):
                 continue
             s = r.fork()
             s.pc.append(c)
             apply_state(s, lo, F)
-            # substitution: generic state -> state at F ; K -> F
-            subs = [(K, F)]
-            for loc, mk, g in loc_summaries:
-                v = mk(lo, F)
-                if g.kind == "seq":
-                    subs.append((g.inner, ctx.as_seq(s, v)))
-                elif g.kind == "str":
-                    subs.append((g.inner, ctx.as_str(s, v)))
-                elif g.kind == "int":
-                    subs.append((g.inner, ctx.as_int(s, v)))
-                elif g.kind == "any":
-                    subs.append((g.inner, v.t))
-                elif g.kind == "set":
-                    # generic sid const -> the sid of the summarised set
-                    subs.append((g.val.t.arg(0), simp(V.sid(v.t))))
-            def sub(t):
+            subs = [(K, F)] + [(a, simp(z3.substitute(b, (K, F)))) for a, b in closed_subs]
+
+            def sub(t, subs=subs):
                 return simp(z3.substitute(t, *subs))
-            # effects of the exiting iteration on locals
             for n, v in p.env.items():
-                if isinstance(v, Val) and (n not in s.env or not (isinstance(s.env.get(n), Val) and z3.eq(simp(s.env[n].t), simp(v.t)))):
-                    if n in gens or n not in path.env or True:
+                if isinstance(v, Val) and not (isinstance(s.env.get(n), Val) and z3.eq(simp(s.env[n].t), simp(v.t))):
+                    if any(L.key == ("env", n) for L in locs) or n not in path.env or not z3.eq(simp(path.env[n].t), simp(v.t)) \
+                            if isinstance(path.env.get(n), Val) else True:
                         s.env[n] = Val(sub(v.t), v.ann, own=v.own, deep=v.deep, src=None)
             for field, arr in p.heap.items():
                 s.heap[field] = sub(arr)
+            for kk, t in p.fresh.items():
+                if kk not in path.fresh or not z3.eq(path.fresh[kk], t):
+                    s.fresh[kk] = sub(t)
             for sid_, arr in p.sets.items():
                 if sid_ not in s.sets:
                     s.sets[sid_] = sub(arr)
@@ -761,8 +801,7 @@ def _summarise_nonempty(ctx, fr, path, src, body, lo, hi, peel):
                     v = Val(sub(v.t), v.ann, own=v.own, deep=v.deep)
                 results.append((s, Outcome("ret", v)))
             else:
-                v = o.value
-                results.append((s, Outcome("raise", v)))
+                results.append((s, Outcome("raise", o.value)))
     return results
 
 
